@@ -85,6 +85,17 @@ void do_op(string op, string ctx) {
     "/reg"->put(f[1], o);
     vlog("\"e\":\"Mk\",\"ctx\":" + jq(ctx) + ",\"by\":" + jq(me()) + ",\"ob\":" + jq(f[1]) + ",\"file\":" + jq(f[2]) + ",\"fname\":" + jq(file_name(o)));
     break;
+  case "getc":
+    vlog("\"e\":\"GetC\",\"u\":" + jq(me()));
+    get_char("gc_cb");
+    break;
+  case "inputto":
+    vlog("\"e\":\"InputTo\",\"u\":" + jq(me()));
+    input_to("it_cb");
+    break;
+  case "force":
+    for (r = 0; r < to_int(f[1]); r++) { vlog("\"e\":\"Forced\",\"u\":" + jq(me()) + ",\"i\":" + r); command("x forced" + r); }
+    break;
   case "clr":
     map_delete(scripts, f[1]);
     break;
@@ -112,6 +123,7 @@ void run_ops(string line, string ctx) {
     o->do_ops(ops, ctx);
     return;
   }
+  if (line[0..0] == "x") return;   /* filler command */
   vlog("\"e\":\"BadLine\",\"hex\":" + jq(to_hex(line)));
 }
 
@@ -122,3 +134,12 @@ void fired(string fn, string id) {
 void cbA(string id) { fired("A", id); }
 void cbB(string id) { fired("B", id); }
 void cbC(string id) { fired("C", id); }
+
+// single-character mode: every delivery is logged like a command and the mode is re-armed
+void gc_cb(string s) {
+  vlog("\"e\":\"Cmd\",\"u\":" + jq(me()) + ",\"hex\":" + jq(to_hex(s)) + ",\"mode\":\"char\"");
+  get_char("gc_cb");
+}
+void it_cb(string s) {
+  vlog("\"e\":\"Cmd\",\"u\":" + jq(me()) + ",\"hex\":" + jq(to_hex(s)) + ",\"mode\":\"input_to\"");
+}
